@@ -1,9 +1,9 @@
 package main
 
 import (
-	"strings"
 	"go/token"
 	"go/types"
+	"strings"
 
 	"golang.org/x/tools/go/ssa"
 )
@@ -212,7 +212,6 @@ func (p *Path) armTakenIn(sel *ssa.Select, f *Frame) int {
 	}
 	return q.armTaken(sel)
 }
-
 
 // boundTarget: for the synthetic wrapper of a method value (x.m) the method itself; any other function unchanged.
 func boundTarget(fn *ssa.Function) *ssa.Function {
